@@ -393,7 +393,11 @@ func genCase(t *rapid.T) Case {
 			// a message with repeated and nested content
 			c.Frames = append(c.Frames, pbm.GenListFrame(t, maxPayload))
 		} else {
-			c.Frames = append(c.Frames, pbm.GenFrame(t, maxPayload))
+			f := pbm.GenFrame(t, maxPayload)
+			if f.Kind == "raw" && !f.Versioned && gen.Chance(t, 1, 3, "merging") {
+				f.Kind = "rawm" // the legacy message whose Unmarshal method merges
+			}
+			c.Frames = append(c.Frames, f)
 		}
 		// half of the destinations carry the frame's own version (as a caller that knows what it reads would),
 		// the others a different one or none
